@@ -15,6 +15,26 @@ cfg keys (all optional): types (names), ptr_size, n_funcs, size, shape,
 float (bool), calls (bool), externals (bool), globals (bool), blobs (bool),
 fptr (bool), undefined (bool: sprinkle dead ``undefined`` values),
 volatile (bool), init_globals (bool), features to avoid: no_ops (set of binop names).
+
+Kind coverage (C15/C16; all off by default, no random draw is made for them
+unless switched on, so every older cfg generates exactly what it did before):
+  kinds (bool)       sprinkle "kind" statements: constants of every class
+                     (0, +-1, min, max, > 2^63, out-of-range, tiny / huge /
+                     negative / exponent-notation floats, inf, nan, -0.0, ptr
+                     constants), literal data, a *used* ``undefined``, loads
+                     from an external variable, a global initialised by a
+                     tuple of bytes and pointer relocations (data pointer and
+                     function pointer, both loaded and used), a never-called
+                     procedure holding inline assembly, forced rol/ror, unary
+                     operators, volatile accesses and memcpy when their own
+                     dials are on;
+  kinds_off (names)  kind statements to leave out: "float-exp", "float-inf",
+                     "float-nan", "literal", "undefined-used", "extern-var",
+                     "reloc-global", "inline-asm", "const-out-of-range",
+                     "unop~";
+  rpo (bool)         list the blocks of every function in reverse post-order,
+                     so that no non-phi operand is defined textually after
+                     its use.
 """
 from ppci import ir
 
@@ -58,7 +78,7 @@ def norm_cfg(cfg):
     c = Cfg(types=INT_TYPES + ["f32", "f64"], ptr_size=8, n_funcs=3, size=14, shape="ssa", float=True,
             calls=True, externals=True, globals=True, blobs=True, fptr=True, undefined=False,
             volatile=False, init_globals=True, no_ops=(), rotates=False, tailcall=True,
-            float_to_int=True, ptr_compare=True, unops=True, unsafe=False)
+            float_to_int=True, ptr_compare=True, unops=True, unsafe=False, kinds=False, kinds_off=(), rpo=False)
     c.update(cfg or {})
     c["types"] = [t for t in c["types"] if c["float"] or not t.startswith("f")]
     return c
@@ -76,6 +96,11 @@ class ModGen:
         self.funcs = []      # (ir function, param types, ret ty or None, pure?)
         self.globals = []    # (variable, [(offset, ty)] typed cells)
         self.ext_p = self.ext_f = None
+        self.ext_v = None
+        self.reloc = None    # (variable, offset of data pointer, (target variable, cells), offset of function pointer)
+
+    def koff(self, name):
+        return name in self.cfg.kinds_off
 
     def build(self):
         r, cfg = self.r, self.cfg
@@ -87,13 +112,23 @@ class ModGen:
             rty = r.choice(self.int_types)
             self.ext_f = ir.ExternalFunction("ext_get", [bty], rty)
             self.m.add_external(self.ext_f)
+        if cfg.kinds and not self.koff("extern-var"):
+            self.ext_v = ir.ExternalVariable("ext_v")
+            self.m.add_external(self.ext_v)
         if cfg.globals:
             for gi in range(r.randint(1, 3)):
                 self.add_global(gi)
+            if cfg.kinds and cfg.init_globals and not self.koff("reloc-global"):
+                self.add_reloc_global()
         n = r.randint(1, cfg.n_funcs)
         for fi in range(n):
             last = fi == n - 1
             FuncGen(self, fi, last).build()
+        if cfg.kinds and not self.koff("inline-asm") and r.random() < 0.5:
+            self.add_asm_procedure()
+        if cfg.rpo:
+            for f in self.m.functions:
+                rpo_blocks(f)
         info = {"tags": sorted(self.tags),
                 "functions": {f.name: [p.ty.name for p in f.arguments] for f, _, _ in self.funcs}}
         return self.m, info
@@ -128,6 +163,39 @@ class ModGen:
         v = ir.Variable("g%d" % gi, ir.Binding.GLOBAL, amount, align, value=init)
         self.m.add_variable(v)
         self.globals.append((v, cells))
+
+
+    def add_reloc_global(self):
+        """global initialised by (bytes, (ptr, data symbol), (ptr, function symbol), bytes)"""
+        ps = self.cfg.ptr_size
+        target = self.globals[0]
+        head = self.r.choice([b"\x2a", b"\xff\x00\x80\x7f", b"rel"]).ljust(ps, b"\x00")
+        value = (head, (ir.ptr, target[0].name), (ir.ptr, "f0"), bytes(range(1, ps + 1)))
+        v = ir.Variable("grel", ir.Binding.LOCAL if self.r.random() < 0.3 else ir.Binding.GLOBAL, 4 * ps, ps, value=value)
+        self.m.add_variable(v)
+        self.reloc = (v, ps, target, 2 * ps)
+        self.tags.add("reloc-initialized-global")
+
+    def add_asm_procedure(self):
+        """never called (the reference interpreter cannot run inline assembly)"""
+        f = ir.Procedure("fasm", ir.Binding.GLOBAL)
+        self.m.add_function(f)
+        p = ir.Parameter("p0", T("i32") if T("i32") in self.int_types else self.int_types[0])
+        f.add_parameter(p)
+        b = ir.Block("fasm_entry")
+        f.add_block(b)
+        f.entry = b
+        a = ir.Alloc("asm_al", 4, 4)
+        b.add_instruction(a)
+        ad = ir.AddressOf(a, "asm_ad")
+        b.add_instruction(ad)
+        asm = ir.InlineAsm(self.r.choice(["nop", "mov %0, %1", "add %0, %1, 1; nop"]), self.r.choice([[], ["r0"], ["r1", "memory"]]))
+        asm.add_input_variable(p)
+        if self.r.random() < 0.6:
+            asm.add_output_variable(ad)
+        b.add_instruction(asm)
+        b.add_instruction(ir.Exit())
+        self.tags.add("inline-asm")
 
 
 class Env:
@@ -292,6 +360,9 @@ class FuncGen:
         r = self.r
         while budget > 0:
             budget -= 1
+            if self.cfg.kinds and r.random() < 0.22:
+                self.stmt_kind(env)
+                continue
             k = r.random()
             if k < 0.42:
                 self.stmt_expr(env)
@@ -335,6 +406,145 @@ class FuncGen:
                 self.stmt_expr(env)
         return True
 
+    # ---- kind coverage (cfg.kinds)
+    FLOAT_CLASSES = {
+        "float-tiny": [5e-324, 2.2250738585072014e-308, 1e-300, 2.5e-10],
+        "float-huge": [1.7976931348623157e308, 1e300, 3.4028234663852886e38, 1e22],
+        "float-exp": [1e16, 1.5e-05, 1.2345678901234568e+20, -4e-07, 1e+100],
+        "float-plain": [0.0, 1.0, 0.5, 1234.5678, 9007199254740993.0, 0.1, 0.30000000000000004, 3.141592653589793,
+                        1234567.890123, 0.000123456789012],
+        "float-negative": [-3.5, -0.001, -1e25, -123456.789, -2.718281828459045],
+        "float-negzero": [-0.0],
+        "float-inf": [float("inf"), float("-inf")],
+        "float-nan": [float("nan")],
+    }
+
+    def stmt_kind(self, env):
+        r, mg, cfg = self.r, self.mg, self.cfg
+        acts = ["int-const", "ptr-const"]
+        if mg.float_types:
+            acts += ["float-const", "float-const"]
+        if not mg.koff("literal"):
+            acts.append("literal")
+        if not mg.koff("undefined-used"):
+            acts.append("undefined-used")
+        if mg.ext_v is not None:
+            acts.append("extern-var")
+        if mg.reloc is not None:
+            acts += ["reloc-data", "reloc-func"]
+        if cfg.rotates and mg.int_types:
+            acts.append("rotate")
+        if cfg.unops:
+            acts.append("unop")
+        if cfg.volatile and self.slots:
+            acts.append("volatile")
+        if self.blobs:
+            acts.append("memcpy")
+        a = r.choice(acts)
+        if a == "int-const":
+            ty = r.choice(mg.int_types)
+            lo, hi = int_range(ty)
+            cls = r.choice(["zero", "one", "minus-one", "min", "max", "above-2^63", "out-of-range"])
+            if cls == "above-2^63" and T("u64") in mg.int_types:
+                ty = T("u64")
+                v = r.choice([1 << 63, (1 << 63) + 1, (1 << 64) - 1, 0xFEDCBA9876543210])
+            elif cls == "out-of-range" and not mg.koff("const-out-of-range"):
+                v = r.choice([hi + 1, lo - 1, hi + 200, -(1 << 70), 1 << 70])
+            else:
+                v = {"zero": 0, "one": 1, "minus-one": -1 if lo < 0 else hi, "min": lo, "max": hi}.get(cls, hi)
+            c = self.const(ty, v)
+            if lo <= v <= hi:
+                env.add(c)
+            self.tag("kind-int-const")
+        elif a == "ptr-const":
+            c = self.const(ir.ptr, r.choice([0, 1, 8, 4096, 0xFFFF]))
+            self.tag("kind-ptr-const")
+        elif a == "float-const":
+            ty = r.choice(mg.float_types)
+            noexp = mg.koff("float-exp")
+            classes = {}
+            for k in sorted(self.FLOAT_CLASSES):
+                vals = [x for x in self.FLOAT_CLASSES[k]
+                        if not mg.koff(k) and not (noexp and "e" in repr(x))]
+                if vals:
+                    classes[k] = vals
+            cls = r.choice(sorted(classes))
+            v = r.choice(classes[cls])
+            if r.random() < 0.15:
+                v = int(v) if v == v and abs(v) < 1e15 else 3    # an int spelled constant of float type
+                cls = "float-int-spelled"
+            c = self.const(ty, v)
+            if cls in ("float-plain", "float-negative", "float-negzero", "float-int-spelled") or r.random() < 0.3:
+                env.add(c)
+            if self.slots and r.random() < 0.5:
+                cands = [s for s in self.slots if s[1] is ty]
+                if cands:
+                    self.emit(ir.Store(c, r.choice(cands)[0]))
+            self.tag("kind-" + cls)
+        elif a == "literal":
+            data = bytes(r.randrange(256) for _ in range(r.randint(1, 12)))
+            lit = self.emit(ir.LiteralData(data, self.name("lit")))
+            ad = self.emit(ir.AddressOf(lit, self.name("lita")))
+            p = self.cell_addr(ad, r.randrange(len(data)))
+            bty = T("u8") if T("u8") in mg.int_types else None
+            if bty is not None:
+                env.add(self.emit(ir.Load(p, self.name("litb"), bty)))
+            self.tag("literal-data")
+        elif a == "undefined-used":
+            ty = r.choice(mg.val_types)
+            u = self.emit(ir.Undefined(self.name("und"), ty))
+            if r.random() < 0.5:
+                self.emit(ir.Binop(u, "+", self.pick(env, ty), self.name("udead"), ty))
+            else:
+                self.emit(ir.Cast(u, self.name("udead"), r.choice(mg.val_types)))
+            self.tag("undefined-used")
+        elif a == "extern-var":
+            bty = T("u8") if T("u8") in mg.int_types else mg.int_types[0]
+            env.add(self.emit(ir.Load(mg.ext_v, self.name("xv"), bty)))
+            self.tag("external-variable")
+        elif a == "reloc-data":
+            v, off, (tv, cells), _ = mg.reloc
+            q = self.emit(ir.Load(self.cell_addr(v, off), self.name("rq"), ir.ptr))
+            coff, cty = r.choice(cells)
+            env.add(self.emit(ir.Load(self.cell_addr(q, coff), self.name("rv"), cty)))
+            self.tag("pointer-from-initializer")
+        elif a == "reloc-func":
+            v, _, _, off = mg.reloc
+            q = self.emit(ir.Load(self.cell_addr(v, off), self.name("rf"), ir.ptr))
+            if self.index > 0 and mg.funcs and mg.funcs[0][0].name == "f0":
+                f, ptys, ret = mg.funcs[0]
+                args = [self.pick(env, t) for t in ptys]
+                if ret is None:
+                    self.emit(ir.ProcedureCall(q, args))
+                else:
+                    env.add(self.emit(ir.FunctionCall(q, args, self.name("rfr"), ret)))
+                self.tag("function-pointer-from-initializer")
+        elif a == "rotate":
+            ty = r.choice(mg.int_types)
+            op = r.choice(["rol", "ror"])
+            env.add(self.emit(ir.Binop(self.pick(env, ty), op, self.safe_count(env, ty), self.name("rot"), ty)))
+            self.tag("rotate")
+        elif a == "unop":
+            ty = r.choice(mg.val_types)
+            op = "-" if (not ty.is_integer or mg.koff("unop~")) else r.choice("-~")
+            env.add(self.emit(ir.Unop(op, self.pick(env, ty), self.name("u"), ty)))
+            self.tag("unop" + op)
+        elif a == "volatile":
+            addr, ty = r.choice(self.slots)
+            if r.random() < 0.5:
+                env.add(self.emit(ir.Load(addr, self.name("vld"), ty, volatile=True)))
+                self.tag("volatile-load")
+            else:
+                self.emit(ir.Store(self.pick(env, ty), addr, volatile=True))
+                self.tag("volatile-store")
+        elif a == "memcpy":
+            (a1, ad1, s1), (a2, ad2, s2) = self.blobs[0], self.blobs[1]
+            if r.random() < 0.5:
+                self.emit(ir.CopyBlob(ad1, ad2, s1))
+            else:
+                self.emit(ir.CopyBlob(ad2, a1, s1))     # a blob value names its own storage
+            self.tag("memcpy")
+
     def stmt_expr(self, env):
         r, mg = self.r, self.mg
         ty = r.choice(mg.val_types)
@@ -345,6 +555,8 @@ class FuncGen:
         if k < 0.24 and self.cfg.unops:
             a = self.pick(env, ty)
             op = "-" if not ty.is_integer else r.choice("-~")
+            if op == "~" and "unop~" in self.cfg.kinds_off:
+                op = "-"
             env.add(self.emit(ir.Unop(op, a, self.name("u"), ty)))
             self.tag("unop" + op)
             return
@@ -758,6 +970,9 @@ class FuncGen:
             self.cur = bodies[k]
             e = Env()
             for _ in range(r.randint(1, 5)):
+                if self.cfg.kinds and r.random() < 0.25:
+                    self.stmt_kind(e)
+                    continue
                 kk = r.random()
                 if kk < 0.45:
                     self.stmt_slot_load(e)
@@ -811,6 +1026,35 @@ def prune_unreachable(f):
                 ins._block_map.clear()
     for b in dead:
         f.remove_block(b)
+
+
+def rpo_blocks(f):
+    """Reorder f.blocks into reverse post-order of the CFG (entry first)."""
+    seen, post = set(), []
+    stack = [(f.entry, iter(_succ(f.entry)))]
+    seen.add(f.entry)
+    while stack:
+        b, it = stack[-1]
+        for s in it:
+            if s not in seen:
+                seen.add(s)
+                stack.append((s, iter(_succ(s))))
+                break
+        else:
+            post.append(b)
+            stack.pop()
+    order = post[::-1]
+    rest = [b for b in f.blocks if b not in seen]
+    f.blocks[:] = order + rest
+
+
+def _succ(b):
+    last = b.instructions[-1]
+    if isinstance(last, ir.Jump):
+        return [last.target]
+    if isinstance(last, ir.CJump):
+        return [last.lab_yes, last.lab_no]
+    return []
 
 
 def gen_module(r, cfg=None):
